@@ -728,7 +728,8 @@ pub fn fwd_from_text(item: &str) -> Option<ForwardedTLV<'static>> {
 
 impl Executor for InstExec {
     fn exec(&mut self, line: &str) -> String {
-        let w: Vec<&str> = line.split_whitespace().collect();
+        // tokens starting with '#' are annotations for the checker (e.g. `#ins:<class>`)
+        let w: Vec<&str> = line.split_whitespace().filter(|t| !t.starts_with('#')).collect();
         if w.first() == Some(&"INIT") {
             drain_events();
             take_lock_trace();
